@@ -66,6 +66,22 @@ pub fn run(op: &str, a: &[&str]) -> Option<String> {
             });
             hex(&out)
         }
+        // poly1305.finish_state <r limbs public> <pad words> <h limbs secret>: the final reduction on an explicit
+        // accumulator state (hook verif_from_state): both sides of `h >= p` and every carry pattern
+        "poly1305.finish_state" => {
+            fn u32s<const N: usize>(s: &str) -> [u32; N] {
+                let v: Vec<u32> = s.split(',').map(|x| x.parse::<u32>().expect("bad u32")).collect();
+                let mut a = [0u32; N];
+                a.copy_from_slice(&v);
+                a
+            }
+            let mut p = cryptoxide::poly1305::Poly1305::verif_from_state(u32s::<5>(a[0]), u32s::<5>(a[2]), u32s::<4>(a[1]));
+            let mut out = [0u8; 16];
+            traced!({
+                p.raw_result(black_box(&mut out));
+            });
+            hex(&out)
+        }
         // hmac.sha256 <msg public> <key secret>   (key length is public)
         "hmac.sha256" => {
             let msg = unhex(a[0]);
